@@ -8,6 +8,7 @@
 #include <time.h>
 #include <poll.h>
 #include <sys/epoll.h>
+#include <sys/types.h>
 
 #define VK_NS 1000000000ll
 #define VK_INF INT64_MAX
@@ -62,6 +63,9 @@ struct vk_hooks {
 	void (*epoll_ctl_pre)(int epfd, int op, int fd);
 	/* is a poll(.., 0) call made right now a probe (not the loop's wait)?  NULL = always a probe */
 	int (*poll_is_probe)(void);
+	/* read()/write() issued by library or harness code (is_write, fd, size) -- before and after the real call */
+	void (*io_pre)(int is_write, int fd, size_t n);
+	void (*io_post)(int is_write, int fd, ssize_t result);
 };
 
 extern struct vk_hooks vk_hooks;
